@@ -5,7 +5,7 @@
 (*               co_lnotab before 3.10, co_linetable from 3.10; co_qualname and   *)
 (*               co_exceptiontable from 3.11)                                     *)
 (*   ClassFor(h) the portable type for the host's version                        *)
-(* Actions: ToPortable, ToNative, Replace(f, x); each is checked on recorded      *)
+(* Actions: ToPortable, ToNative, Replace(f, x), AgainToNative; each is checked on recorded      *)
 (* conversions (one record per native code object; field values are digests).    *)
 EXTENDS Integers, Sequences, FiniteSets, TLC, Json, IOUtils, TLCExt
 
@@ -44,11 +44,24 @@ Replace == /\ tid <= Len(Traces) /\ phase = "back"
                             \o (IF d1 # {} THEN <<V("C16.replace_other_fields", d1, "changed")>> ELSE <<>>)
                             \o (IF d2 # {} THEN <<V("C16.replace_alters_original", d2, "changed")>> ELSE <<>>)
                             \o (IF R.same_object = 1 THEN <<V("C16.replace_is_copy", "a new object", "the same object")>> ELSE <<>>)
-           /\ phase' = "done" /\ UNCHANGED tid
+           /\ phase' = "replaced" /\ UNCHANGED tid
+(* the changed copy converts to a native object that carries the change, and the original converts once more to what it was:    *)
+(* a conversion result remembered across replace() (or across calls) would show here                                            *)
+AgainToNative ==
+  /\ tid <= Len(Traces) /\ phase = "replaced"
+  /\ bad' = bad \o (IF R.back_ok = 0 THEN <<>>
+                    ELSE (IF R.rback_ok = 0 THEN <<V("C16.replace_to_native_raises", "a native code object", "raised")>>
+                          ELSE LET d == Diff(R.native, R.rback, Fields(H) \ {"co_name"}) IN
+                               (IF R.rback["co_name"] # R.newname THEN <<V("C16.replace_to_native_value", R.newname, R.rback["co_name"])>> ELSE <<>>)
+                               \o (IF d # {} THEN <<V("C16.replace_to_native_other_fields", d, "changed")>> ELSE <<>>))
+                         \o (IF R.back2_ok = 0 THEN <<V("C16.to_native_again_raises", "a native code object", "raised")>>
+                             ELSE LET d == Diff(R.native, R.back2, Fields(H)) IN
+                                  IF d # {} THEN <<V("C16.to_native_again", d, "fields differ from the original")>> ELSE <<>>))
+  /\ phase' = "done" /\ UNCHANGED tid
 TNext == /\ tid <= Len(Traces) /\ phase = "done"
          /\ \A i \in 1..Len(bad) : PrintT(<<"V", ToJson(bad[i])>>)
          /\ tid' = tid + 1 /\ phase' = "native" /\ bad' = <<>>
 TDone == tid = Len(Traces) + 1 /\ phase = "native" /\ PrintT(<<"DONE", Len(Traces)>>) /\ phase' = "end" /\ UNCHANGED <<tid, bad>>
-Next == ToPortable \/ ToNative \/ Replace \/ TNext \/ TDone
+Next == ToPortable \/ ToNative \/ Replace \/ AgainToNative \/ TNext \/ TDone
 Spec == TInit /\ [][Next]_vars
 =============================================================================
